@@ -161,6 +161,20 @@ def run(tier):
     base = cases(r, 20 if tier == "quick" else 150)
     for b in base:
         b["nsweep"] = int(r.integers(1, 4))
+    # targeted: homogeneous 3-D models with strongly unequal spacings, every axis in turn the odd one out, so that a
+    # component assembled with another axis' spacing (invisible for equal spacings) turns the vector by tens of degrees
+    for d in [(1.0, 1.0, 4.0), (1.0, 4.0, 1.0), (4.0, 1.0, 1.0), (0.25, 1.0, 1.0), (1.0, 0.25, 1.0), (1.0, 1.0, 0.25),
+              (1.0, 2.0, 4.0), (4.0, 2.0, 1.0)]:
+        sh = (5, 5, 5)
+        src = tuple((0.4 + 0.2 * a) * d[a] for a in range(3))
+        base.append({"slow": np.full(sh, 0.5), "dz": d[0], "dx": d[1], "dy": d[2], "zs": src[0], "xs": src[1], "ys": src[2],
+                     "nsweep": 3, "grad": 0, "meta": {"shape": sh, "d": d, "medium": "homog", "src": src, "cls": "interior",
+                                                      "targeted": "aniso3d"}})
+    for d in [(1.0, 3.0), (3.0, 1.0), (0.25, 1.0)]:
+        sh = (6, 6)
+        src = (0.4 * d[0], 0.6 * d[1])
+        base.append({"slow": np.full(sh, 0.5), "dz": d[0], "dx": d[1], "zs": src[0], "xs": src[1], "nsweep": 3, "grad": 0,
+                     "meta": {"shape": sh, "d": d, "medium": "homog", "src": src, "cls": "interior", "targeted": "aniso2d"}})
     oracle(ck, base, "interp")
     base = cases(r, 60 if tier == "quick" else 400)
     for b in base:
